@@ -3,7 +3,7 @@ from check import run_diff_property
 CFG = dict(
     streams=[('h2sm', 1200, 20000, 'http2test')],
     oracle_ops={'h2smrif'},
-    corpus_exec={'d19_trailers_after_early_response.ops': 'http2test'},
+    corpus_exec={'d19_trailers_after_early_response.ops': 'http2test', 'self_dep_priority_after_server_reset.ops': 'http2test'},
     http2_ops={'h2sm', 'h2smrif'},
     rule=("scripted client against the real serverConn (upstream's deterministic tester): sequences of 3..45 frames over the whole "
           "alphabet — SETTINGS (valid, invalid values, duplicates, ACK with and without outstanding settings), HEADERS for new "
